@@ -32,7 +32,7 @@ theorem ci_step (sk : Skeleton) (hd : ClosureFreed sk) {s s' : State} (a : Act)
   all_goals first
     | exact ⟨h1, h2, h3, h4, h5, h6, h7, h8⟩
     | (refine ⟨?_, ?_, ?_, ?_, ?_, ?_, ?_, ?_⟩ <;> (try simp only [freeClosures]) <;> intros <;>
-        grind [upd_apply, freeClosures])
+        grind [upd_apply, freeClosures, newClosures])
 
 theorem reach_ci (sk : Skeleton) (hd : ClosureFreed sk) {s : State} (h : Reach sk s) : CI s := by
   induction h with
